@@ -49,7 +49,7 @@ def indent(s, n):
 
 
 def gen_function_src(r, allow_shadow=True):
-    n = r.randint(1, 3)
+    n = r.randint(0, 3)
     ps = PARAMS[:n] if r.random() < 0.5 else r.sample(PARAMS, n)
     method = r.random() < 0.4
     sig = ", ".join((["self"] if method else []) + ["%s=%s" % (p, r.choice(["1", "'a'", "None", "0.5"])) for p in ps])
@@ -62,8 +62,8 @@ def gen_function_src(r, allow_shadow=True):
             shadow = True
         else:
             t = r.choice(STMTS)
-        body.append(t.format(p0=ps[0], p1=ps[-1]))
-    ret = r.choice([None, "return total", "return %s" % ps[0], "return (%s, 1)" % ps[-1], "return"])
+        body.append(t.format(p0=ps[0] if ps else "name", p1=ps[-1] if ps else "count"))
+    ret = r.choice([None, "return total", "return %s" % (ps[0] if ps else "name"), "return (%s, 1)" % (ps[-1] if ps else "count"), "return", "return helper(flag=True)"])
     if ret:
         body.append(ret)
     if not body:
